@@ -486,7 +486,14 @@ VariablesStack::findEntry(
         }
     }
 
-    if(theEntryIndex == m_stack.size() && fIsParam == false && true == fSearchGlobalSpace && m_globalStackFrameIndex > 1)
+    // The global stack frame index has no meaning before the first
+    // top-level variable is pushed (a top-level parameter set from an
+    // expression that refers to a variable gets here).
+    if(theEntryIndex == m_stack.size() &&
+       fIsParam == false &&
+       true == fSearchGlobalSpace &&
+       m_globalStackFrameIndex > 1 &&
+       m_globalStackFrameIndex <= m_stack.size())
     {
         // Look in the global space
         for(size_type i = m_globalStackFrameIndex - 1; i > 0; i--)
